@@ -29,7 +29,7 @@ def _mathml(expr):
     return '<apply><%s/>%s</apply>' % (op, ''.join(_mathml(e) for e in expr[1:]))
 
 
-def chain_model(ns, nc, decl, cdecl, path=None, x0=None, k0=None):
+def chain_model(ns, nc, decl, cdecl, path=None, x0=None, k0=None, inter=True):
     """Linear chain by alphabetical rank: dx_1 = -k_c(1) x_1, dx_r = k_c(r-1) x_(r-1) - k_c(r) x_r.
     States are declared in the order decl (ranks), constants in the order cdecl.  An intermediate
     yq = xa / dk and a derived constant dk = sum of the constants are added (never parameters)."""
@@ -50,8 +50,9 @@ def chain_model(ns, nc, decl, cdecl, path=None, x0=None, k0=None):
             params.append('<parameter id="%s" value="%r" constant="false"/>' % (sname(r), float(x0[r - 1])))
         else:
             params.append('<parameter id="%s" value="%r" constant="true"/>' % (cname(r), float(k0[r - 1])))
-    params.append('<parameter id="yq" constant="false"/>')
-    params.append('<parameter id="dk" constant="false"/>')
+    if inter:
+        params.append('<parameter id="yq" constant="false"/>')
+        params.append('<parameter id="dk" constant="false"/>')
     for r in decl:
         out = ('times', cname(cidx(r, nc)), sname(r))
         if r == 1:
@@ -61,18 +62,19 @@ def chain_model(ns, nc, decl, cdecl, path=None, x0=None, k0=None):
         rules.append('<rateRule variable="%s"><math xmlns="http://www.w3.org/1998/Math/MathML">%s</math></rateRule>'
                      % (sname(r), _mathml(rhs)))
     dk = cname(1) if nc == 1 else ('plus',) + tuple(cname(k) for k in range(1, nc + 1))
-    rules.append('<assignmentRule variable="yq"><math xmlns="http://www.w3.org/1998/Math/MathML">%s</math></assignmentRule>'
-                 % _mathml(('divide', sname(1), 'dk')))
-    rules.append('<assignmentRule variable="dk"><math xmlns="http://www.w3.org/1998/Math/MathML">%s</math></assignmentRule>'
-                 % _mathml(dk))
+    if inter:
+        rules.append('<assignmentRule variable="yq"><math xmlns="http://www.w3.org/1998/Math/MathML">%s</math></assignmentRule>'
+                     % _mathml(('divide', sname(1), 'dk')))
+        rules.append('<assignmentRule variable="dk"><math xmlns="http://www.w3.org/1998/Math/MathML">%s</math></assignmentRule>'
+                     % _mathml(dk))
     xml = ('<?xml version="1.0" encoding="UTF-8"?>\n'
            '<sbml xmlns="http://www.sbml.org/sbml/level3/version2/core" level="3" version="2">\n'
            '<model id="gen" name="gen">\n<listOfParameters>\n%s\n</listOfParameters>\n<listOfRules>\n%s\n</listOfRules>\n'
            '</model>\n</sbml>\n' % ('\n'.join(params), '\n'.join(rules)))
     if path is None:
         os.makedirs(os.path.join(WORK, 'sbml'), exist_ok=True)
-        path = os.path.join(WORK, 'sbml', 'chain-%d-%d-%s-%s-%d.xml' % (
-            ns, nc, ''.join(map(str, decl)), ''.join(map(str, cdecl)), os.getpid()))
+        path = os.path.join(WORK, 'sbml', 'chain-%d-%d-%s-%s-%d-%d.xml' % (
+            ns, nc, ''.join(map(str, decl)), ''.join(map(str, cdecl)), int(inter), os.getpid()))
     with open(path, 'w') as f:
         f.write(xml)
     return path
